@@ -161,11 +161,85 @@ def gen_queue_world(rng: random.Random, n_steps: int) -> Dict[str, Any]:
             "stations": stations, "bases": bases, "focus": "queue"}
 
 
+def gen_energy_world(rng: random.Random, n_steps: int, dt: Optional[int] = None) -> Dict[str, Any]:
+    """plenty of plugs of every type, electric and combustion vehicles at every charge level, odd step lengths
+    (shorter than / not a multiple of the charge curve's 60 s integration step), tariffs that change mid-run"""
+    dt = dt or rng.choice([1, 7, 30, 45, 60, 90, 600])
+    span = max(200.0, min(3000.0, 11.0 * dt * 2.5))      # a few steps of driving between cells
+    cells = [world.at(0, 0), world.at(span, 0), world.at(0, span * 0.7)]
+    stations = [
+        {"id": "s1", "lat": cells[0][0], "lon": cells[0][1], "plugs": [("LEVEL_1", 3, True), ("LEVEL_2", 3, True), ("DCFC", 3, True), ("GAS_PUMP", 3, True)]},
+        {"id": "s2", "lat": cells[1][0], "lon": cells[1][1], "plugs": [("DCFC", 2, True), ("GAS_PUMP", 2, True)]},
+        {"id": "bs1", "lat": cells[2][0], "lon": cells[2][1], "plugs": [("LEVEL_2", 3, False), ("LEVEL_1", 2, False)]},
+    ]
+    bases = [{"id": "b1", "lat": cells[2][0], "lon": cells[2][1], "station": "bs1", "stalls": 4}]
+    vehicles = []
+    for k in range(rng.randint(4, 7)):
+        c = cells[rng.randrange(3)]
+        ice = rng.random() < 0.4
+        soc = rng.choice([0.0, 0.002, 0.05, 0.5, 0.9, 0.97, 0.9985, 1.0])
+        vehicles.append({"id": f"v{k+1}", "lat": c[0], "lon": c[1], "mech": "toyota_corolla" if ice else "leaf_50", "soc": soc})
+    requests = []
+    for k in range(rng.randint(2, 8)):
+        o, d = cells[rng.randrange(3)], cells[rng.randrange(3)]
+        requests.append({"id": f"r{k+1:02d}", "o": o, "d": d, "dep": rng.randrange(0, max(1, dt * n_steps // 2)), "pax": 1, "fleet": None})
+    requests.sort(key=lambda r: (r["dep"], r["id"]))
+    prices = []
+    for t in sorted({0, dt * (n_steps // 3) + 1, dt * (n_steps // 2)}):
+        for s in stations:
+            for (cid, _, _) in s["plugs"]:
+                prices.append({"time": t, "target": s["id"], "charger_id": cid, "price": rng.choice([0.0, 0.013, 0.2, 0.45, 0.9])})
+    return {"name": "energy", "dt": dt, "start": 0, "end": dt * n_steps, "cancel": max(600, 5 * dt), "vehicles": vehicles,
+            "requests": requests, "stations": stations, "bases": bases, "prices": prices, "price_key": "station_id",
+            "rate": (2.2, 1.6, 5.0), "focus": "energy"}
+
+
+def gen_shift_world(rng: random.Random, n_steps: int, dt: Optional[int] = None) -> Dict[str, Any]:
+    """human drivers with shift tables that cross midnight, touch step boundaries, are empty or cover the whole day"""
+    dt = dt or rng.choice([1, 7, 60, 900, 3600])
+    start = rng.choice([0, 0, 3 * 3600 + 17, 23 * 3600 + 1800, 86400 - 2 * dt, 7 * 3600])
+    t_end = start + dt * n_steps
+
+    def on_grid(off_steps):   # a time that coincides with the start of a step
+        return (start + dt * off_steps) % 86400
+
+    k1, k2 = sorted(rng.sample(range(1, max(3, n_steps - 1)), 2))
+    sched = [
+        ("grid", _hms(on_grid(k1)), _hms(on_grid(k2))),                      # both ends on step boundaries
+        ("offgrid", _hms((on_grid(k1) + 1) % 86400), _hms((on_grid(k2) - 1) % 86400)),
+        ("wrap", _hms(on_grid(k2)), _hms(on_grid(k1))),                      # crosses midnight (or wraps the other way)
+        ("night", "22:00:00", "02:30:00"),
+        ("empty", "06:00:00", "06:00:00"),
+        ("allday", "00:00:00", "23:59:59"),
+        ("rand", _hms(rng.randrange(86400)), _hms(rng.randrange(86400))),
+    ]
+    c0, c1 = world.at(0, 0), world.at(500, 300)
+    bases = [{"id": "b1", "lat": c0[0], "lon": c0[1], "station": None, "stalls": 10}]
+    stations = [{"id": "s1", "lat": c1[0], "lon": c1[1], "plugs": [("DCFC", 4, True)]}]
+    vehicles = []
+    for k, (sid, _, _) in enumerate(sched):
+        vehicles.append({"id": f"h{k+1}", "lat": c0[0], "lon": c0[1], "mech": "leaf_50", "soc": 0.9, "schedule": sid, "home_base": "b1"})
+    vehicles.append({"id": "a1", "lat": c1[0], "lon": c1[1], "mech": "leaf_50", "soc": 0.9})
+    requests = []
+    n_r = min(60, max(6, n_steps // 3))
+    for k in range(n_r):
+        dep = start + rng.randrange(0, max(1, dt * n_steps - 1))
+        o, d = (c0, c1) if rng.random() < 0.5 else (c1, c0)
+        requests.append({"id": f"r{k+1:03d}", "o": o, "d": d, "dep": dep, "pax": 1, "fleet": None})
+    requests.sort(key=lambda r: (r["dep"], r["id"]))
+    return {"name": "shift", "dt": dt, "start": start, "end": t_end, "cancel": max(600, 4 * dt), "vehicles": vehicles,
+            "requests": requests, "stations": stations, "bases": bases, "schedules": sched, "focus": "shift"}
+
+
 def gen_world(rng: random.Random, *, n_steps: int = 40, fleets: Optional[bool] = None, humans: bool = True,
-              dt: Optional[int] = None, tight: bool = True, focus: Optional[str] = None) -> Dict[str, Any]:
+              dt: Optional[int] = None, tight: bool = True, focus: Optional[str] = None, osm: bool = False) -> Dict[str, Any]:
     """a small world built to make vehicles contend: few plugs and stalls, co-located entities, low charge"""
     if focus == "queue":
         return gen_queue_world(rng, n_steps)
+    if focus == "energy":
+        return gen_energy_world(rng, n_steps, dt)
+    if focus == "shift":
+        return gen_shift_world(rng, n_steps, dt)
     dt = dt or rng.choice([30, 60, 60, 120])
     ncell = rng.randint(3, 5)
     # cells 300..1500 m apart (one to three steps at 40 km/h and dt = 60)
@@ -253,6 +327,8 @@ def gen_world(rng: random.Random, *, n_steps: int = 40, fleets: Optional[bool] =
                 prices.append({"time": t, "target": s["id"], "charger_id": cid, "price": rng.choice([0.0, 0.05, 0.2, 0.5])})
     w["prices"] = prices
     w["price_key"] = "station_id"
+    if osm:
+        w["osm"] = str(world.SCEN_DENVER / "road_network" / "downtown_denver_network.json")
     return w
 
 
